@@ -22,6 +22,7 @@ def runBlock (hdr : String) (lines : Array String) : String :=
   | "S" :: "replay" :: "shutdown" :: _ => Replay.Shutdown.run ((hdr.splitOn " ").filter (· ≠ "")) lines
   | "S" :: "replay" :: "poll" :: _ => Replay.Poll.run ((hdr.splitOn " ").filter (· ≠ "")) lines
   | "S" :: "replay" :: "retry" :: _ => Replay.Retry.run lines
+  | "S" :: "replay" :: "block" :: _ => Replay.Block.run lines
   | "S" :: "replay" :: "throttle" :: _ => Replay.Throttle.run ((hdr.splitOn " ").filter (· ≠ "")) lines
   | _ => "INCONCLUSIVE 0 unknown model: " ++ hdr
 
